@@ -74,6 +74,52 @@ Definition minmax_reads (f : file) (l : option ploc) (left wv : bool) : list rd 
   | Some p => let '(r, res) := walk_reads (S (length f)) f p left wv in (node_reads p ++ r, res)
   end.
 
+(* Store.visitNodes (VisitItemsAscend/Descend and their Ex/iterator variants) on an uncached tree:
+   node record and key-only item read on the way down, the item re-read with its value (when asked
+   for) just before it is delivered; b = number of deliveries the visitor answers true to. *)
+Fixpoint visit_reads (fuel : nat) (cmp : bytes -> bytes -> comparison) (asc : bool) (f : file)
+         (l : option ploc) (target : bytes) (wv : bool) (b : nat) : list rd * nat * bool :=
+  match l with
+  | None => ([], b, true)
+  | Some p =>
+    match fuel with
+    | O => ([], b, true)
+    | S k =>
+      match dec_node f p with
+      | None => (node_reads p, b, false)
+      | Some nr =>
+        match nr_item nr with
+        | None => (node_reads p, b, false)
+        | Some il =>
+          match dec_item f il with
+          | None => (node_reads p ++ [Rd (poff il) item_hdr_len], b, false)
+          | Some it =>
+            let r0 := node_reads p ++ item_reads il it false in
+            let c := cmp target (ikey it) in
+            let choice := if asc then match c with Gt => false | _ => true end
+                          else match c with Gt => true | _ => false end in
+            let choiceT := if asc then nr_left nr else nr_right nr in
+            let choiceF := if asc then nr_right nr else nr_left nr in
+            if choice then
+              let '(r1, b1, k1) := visit_reads k cmp asc f choiceT target wv b in
+              if k1 then
+                let rv := if wv then item_reads il it true else [] in
+                match b1 with
+                | O => (r0 ++ r1 ++ rv, O, false)
+                | S b' =>
+                  let '(r2, b2, k2) := visit_reads k cmp asc f choiceF target wv b' in
+                  (r0 ++ r1 ++ rv ++ r2, b2, k2)
+                end
+              else (r0 ++ r1, b1, false)
+            else
+              let '(r2, b2, k2) := visit_reads k cmp asc f choiceF target wv b in
+              (r0 ++ r2, b2, k2)
+          end
+        end
+      end
+    end
+  end.
+
 (* NewStore on a file that ends in a root record: after Stat, the 24-byte trailer and the root record *)
 Definition open_reads (f : file) : list rd :=
   let e := blen f in
